@@ -132,6 +132,50 @@ Proof.
 Qed.
 End Segment.
 
+(** the same with a lower bound pmin for the sieving primes (pmin = 7: all of them; pmin = 164: the primes above
+    the pre-sieve): a number of the segment is crossed off iff it is p*q for a prime p >= pmin and a cofactor q >= p *)
+Definition bigfactor (pmin n : N) : Prop :=
+  exists p q, prime p /\ pmin <= p /\ p <= q /\ coprime30 q /\ n = p * q.
+
+Section SegmentG.
+Variables low size high stop pmin : N.
+Hypothesis Hlow : low mod 30 = 0.
+Variable sps : list (N * N).
+Hypothesis sps_ok : forall p q0, In (p, q0) sps ->
+  prime p /\ 7 <= p /\ coprime30 q0 /\ p <= q0 /\
+  (forall q, p <= q -> coprime30 q -> low + 7 <= p * q -> q0 <= q).
+Hypothesis sps_min : forall p q0, In (p, q0) sps -> pmin <= p.
+Hypothesis sps_complete : forall p, prime p -> pmin <= p -> p * p <= high ->
+  (exists q0, In (p, q0) sps) \/ (forall q, p <= q -> coprime30 q -> low + 7 <= p * q -> stop < p * q).
+
+Theorem segment_crossed n : low + 7 <= n -> n <= high -> n <= stop -> (crossed sps n <-> bigfactor pmin n).
+Proof.
+  intros Hn Hnh Hns. split.
+  - intros (p & q0 & q & Hin & Hq & Hcq & E). destruct (sps_ok p q0 Hin) as (Hp & _ & _ & Hpq0 & _).
+    exists p, q. split; [exact Hp|]. split; [exact (sps_min p q0 Hin)|]. split; [lia|]. split; [exact Hcq|exact E].
+  - intros (p & q & Hp & Hpm & Hpq & Hcq & E).
+    assert (Hsq : p * p <= high) by (subst n; nia).
+    destruct (sps_complete p Hp Hpm Hsq) as [(q0 & Hin)|Hdead].
+    + destruct (sps_ok p q0 Hin) as (_ & _ & _ & _ & Hmin).
+      exists p, q0, q. split; [exact Hin|]. split; [apply Hmin; [exact Hpq|exact Hcq|lia]|]. split; [exact Hcq|exact E].
+    + exfalso. specialize (Hdead q Hpq Hcq ltac:(lia)). lia.
+Qed.
+End SegmentG.
+
+Lemma bigfactor7_prime n : coprime30 n -> 7 <= n -> (~ bigfactor 7 n <-> prime n).
+Proof.
+  intros Hc H7. split.
+  - intros Hnb. destruct (prime_dec_N n) as [Hp|Hnp]; [exact Hp|exfalso]. apply Hnb.
+    destruct (composite_factor n ltac:(lia) Hnp) as (p & q & Hp & E & Hsq & Hpq).
+    assert (Hcp : coprime30 p /\ coprime30 q) by (apply coprime30_mul; rewrite <- E; exact Hc).
+    pose proof (prime_ge_2 p Hp) as Hp2. pose proof (coprime30_ge7 p (proj1 Hcp) Hp2) as Hp7.
+    exists p, q. split; [exact Hp|]. split; [exact Hp7|]. split; [exact Hpq|]. split; [exact (proj2 Hcp)|exact E].
+  - intros Hp (p & q & Hpp & Hp7 & Hpq & Hcq & E).
+    assert (Hdiv : (Z.of_N p | Z.of_N n)%Z) by (exists (Z.of_N q); lia).
+    destruct (prime_divisors _ Hp _ Hdiv) as [H1|[H1|[H1|H1]]]; nia.
+Qed.
+
+
 (** ---- what the loop specification produces *)
 Lemma byteof_mono low a b : a <= b -> byteof low a <= byteof low b.
 Proof. intros H. unfold byteof. apply N.div_le_mono; lia. Qed.
@@ -247,16 +291,16 @@ Qed.
 
 (** the kernel theorem for one segment: after crossing off with every prime 7 <= p, p*p <= high as a sieving
     prime in a correct, minimal state, the bit of a number of the segment is still set iff the number is prime *)
-Theorem kernel_segment fuel low size high stop (ws : list wstate) cleared sts' :
+Theorem kernel_segment_g fuel low size high stop pmin (ws : list wstate) cleared sts' :
   low mod 30 = 0 ->
-  Forall (w_ok low) ws ->
-  (forall p, prime p -> 7 <= p -> p * p <= high ->
+  Forall (w_ok low) ws -> (forall x, In x ws -> pmin <= w_prime x) ->
+  (forall p, prime p -> pmin <= p -> p * p <= high ->
      In p (map w_prime ws) \/ (forall q, p <= q -> coprime30 q -> low + 7 <= p * q -> stop < p * q)) ->
   cross_all fuel steps size (map w_state ws) = Some (cleared, sts') ->
-  forall n, coprime30 n -> low + 7 <= n -> byteof low n < size -> 7 <= n -> n <= high -> n <= stop ->
-  (~ In (byteof low n, maskof n) cleared <-> prime n).
+  forall n, coprime30 n -> low + 7 <= n -> byteof low n < size -> n <= high -> n <= stop ->
+  (In (byteof low n, maskof n) cleared <-> bigfactor pmin n).
 Proof.
-  intros Hl Hok Hcomplete H n Hc Hn Hb H7 Hnh Hns.
+  intros Hl Hok Hmin_ws Hcomplete H n Hc Hn Hb Hnh Hns.
   destruct (cross_all_spec fuel low size Hl ws cleared sts' Hok H) as (Hmem & _).
   set (sps := map (fun x => (w_prime x, w_q x)) ws).
   assert (sps_ok : forall p q0, In (p, q0) sps -> prime p /\ 7 <= p /\ coprime30 q0 /\ p <= q0 /\
@@ -265,12 +309,14 @@ Proof.
     destruct x as [[[[sp ri] qi] q] i]. cbn [w_prime w_q] in E. injection E as <- <-. cbn [w_ok] in Hok.
     destruct Hok as (HI & Hpr & Hp7 & Hpq & Hmin).
     split; [exact Hpr|split; [exact Hp7|split; [exact (inv_coprime _ _ _ _ _ _ HI)|split; [exact Hpq|exact Hmin]]]]. }
-  assert (sps_complete : forall p, prime p -> 7 <= p -> p * p <= high ->
+  assert (sps_min : forall p q0, In (p, q0) sps -> pmin <= p).
+  { intros p q0 Hin. apply in_map_iff in Hin. destruct Hin as (x & E & Hx). injection E as <- _. apply Hmin_ws. exact Hx. }
+  assert (sps_complete : forall p, prime p -> pmin <= p -> p * p <= high ->
             (exists q0, In (p, q0) sps) \/ (forall q, p <= q -> coprime30 q -> low + 7 <= p * q -> stop < p * q)).
   { intros p Hp Hp7 Hsq. destruct (Hcomplete p Hp Hp7 Hsq) as [Hin|Hdead]; [left|right; exact Hdead].
     apply in_map_iff in Hin. destruct Hin as (x & E & Hx).
     exists (w_q x). apply in_map_iff. exists x. split; [rewrite E; reflexivity|exact Hx]. }
-  rewrite <- (segment_spec low size high stop Hl sps sps_ok sps_complete n (conj Hc (conj Hn Hb)) H7 Hnh Hns).
+  rewrite <- (segment_crossed low high stop pmin Hl sps sps_ok sps_min sps_complete n Hn Hnh Hns).
   assert (Hiff : In (byteof low n, maskof n) cleared <-> crossed sps n).
   { rewrite Hmem. split.
     - intros (x & q' & Hx & A & C & Hb' & D1 & D2). exists (w_prime x), (w_q x), q'.
@@ -295,6 +341,22 @@ Proof.
       symmetry. apply (pair_inj low _ _ Hl Hc' Hc); [nia|exact Hn|congruence|congruence].
     - intros (p & q0 & q' & Hin & A & C & E). apply in_map_iff in Hin. destruct Hin as (x & Ex & Hx). injection Ex as <- <-.
       exists x, q'. subst n. repeat split; assumption. }
-  rewrite Hiff. reflexivity.
+  exact Hiff.
+Qed.
+
+Theorem kernel_segment fuel low size high stop (ws : list wstate) cleared sts' :
+  low mod 30 = 0 ->
+  Forall (w_ok low) ws ->
+  (forall p, prime p -> 7 <= p -> p * p <= high ->
+     In p (map w_prime ws) \/ (forall q, p <= q -> coprime30 q -> low + 7 <= p * q -> stop < p * q)) ->
+  cross_all fuel steps size (map w_state ws) = Some (cleared, sts') ->
+  forall n, coprime30 n -> low + 7 <= n -> byteof low n < size -> 7 <= n -> n <= high -> n <= stop ->
+  (~ In (byteof low n, maskof n) cleared <-> prime n).
+Proof.
+  intros Hl Hok Hcomplete H n Hc Hn Hb H7 Hnh Hns.
+  assert (Hmin_ws : forall x, In x ws -> 7 <= w_prime x).
+  { intros x Hx. rewrite Forall_forall in Hok. specialize (Hok x Hx). destruct x as [[[[sp ri] qi] q] i]. cbn [w_ok w_prime] in *. tauto. }
+  rewrite (kernel_segment_g fuel low size high stop 7 ws cleared sts' Hl Hok Hmin_ws Hcomplete H n Hc Hn Hb Hnh Hns).
+  apply bigfactor7_prime; assumption.
 Qed.
 End Kernel.
